@@ -1105,7 +1105,7 @@ Proof.
       assert (Ho : opn' = true).
       { rewrite (replay_opn _ _ _ _ _ _ _ Hrep). destruct (cur_open s) eqn:Eo; [reflexivity|].
         destruct (pjobs s) eqn:Ep; [|reflexivity]. cbn [replay] in Hrep. inversion Hrep.
-        destruct (c_closed _ _ _ C Eo) as (H0 & _). congruence. }
+        destruct (c_closed _ _ _ C Eo) as (Hz0 & _). congruence. }
       rewrite Ho, ref_eqb_refl. cbn [andb]. split; [reflexivity|]. split; [exact Hwf | split; [exact Hve | exact E3]]. }
   destruct Hnew as [Hnew Hrok].
   assert (Hfresh : forall j, In j (pjobs s) -> j_ref j <> (seq, off)).
@@ -1155,5 +1155,175 @@ Proof.
       destruct (ref_eqb rf (j_ref j)) eqn:Er.
       * apply ref_eqb_eq in Er. subst rf. left. apply lookup_ref_remove_same.
       * rewrite lookup_ref_remove_other; [exact Hp|]. intros ->. rewrite ref_eqb_refl in Er. discriminate.
+Qed.
+Lemma filter_all_false {A} (p : A -> bool) l : (forall x, In x l -> p x = false) -> filter p l = [].
+Proof.
+  induction l as [|a t IH]; intros H; [reflexivity|]. cbn. rewrite (H a (or_introl eq_refl)).
+  apply IH. intros x Hx. apply H. right. exact Hx.
+Qed.
+
+Lemma filter_nil_all {A} (p : A -> bool) l : filter p l = [] -> forall x, In x l -> p x = false.
+Proof.
+  induction l as [|a t IH]; intros H x Hx; [inversion Hx|]. cbn in H. destruct (p a) eqn:E; [discriminate|].
+  destruct Hx as [->|Hx]; [exact E | apply IH; assumption].
+Qed.
+
+Lemma step_trunc s G n : Inv s G -> safe_step s (STrunc n) ->
+  Inv (do_trunc s n) (ghost G s (STrunc n) (do_trunc s n) (OTrunc (map fst (files s)) (map fst (files (do_trunc s n))))).
+Proof.
+  intros [C W] Hsafe. cbn [safe_step] in Hsafe. cbn [ghost].
+  set (idxs := map fst (files s)).
+  set (pr := fun q => negb (q =? cur_seq s) && (q mod 4294967296 <? n)).
+  set (removed := take_while pr idxs).
+  set (keep := fun q => negb (existsb (N.eqb q) removed)).
+  assert (Hfiles : files (do_trunc s n) = filter (fun e => keep (fst e)) (files s)) by reflexivity.
+  assert (Hlk : forall q, lookup q (files (do_trunc s n)) = if keep q then lookup q (files s) else None).
+  { intros q. rewrite Hfiles. apply lookup_filter_key. }
+  assert (Hkeep_pr : forall q, keep q = false -> pr q = true).
+  { intros q Hk. unfold keep in Hk. apply negb_false_iff in Hk. apply existsb_eqb_In in Hk.
+    apply take_while_In in Hk. tauto. }
+  assert (Hcur : keep (cur_seq s) = true).
+  { destruct (keep (cur_seq s)) eqn:Ek; [reflexivity|]. apply Hkeep_pr in Ek. unfold pr in Ek.
+    rewrite N.eqb_refl in Ek. discriminate. }
+  assert (Hle : dmax (files (do_trunc s n)) <= dmax (files s)).
+  { apply dmax_bound. intros e He. rewrite Hfiles in He. apply filter_In in He. apply dmax_in. tauto. }
+  assert (Hall : (length idxs =? length removed)%nat = true -> files (do_trunc s n) = []).
+  { intros Hl. apply Nat.eqb_eq in Hl. symmetry in Hl.
+    pose proof (take_while_length_all pr idxs Hl) as Hp.
+    assert (Hr : removed = idxs) by (apply take_while_all; exact Hp).
+    rewrite Hfiles. apply filter_all_false. intros e He. unfold keep. apply negb_false_iff.
+    apply existsb_eqb_In. rewrite Hr. unfold idxs. apply in_map. exact He. }
+  assert (Hall' : files (do_trunc s n) = [] -> (length idxs =? length removed)%nat = true).
+  { intros Hnil. rewrite Hfiles in Hnil. pose proof (filter_nil_all _ _ Hnil) as Hk.
+    apply Nat.eqb_eq. unfold removed. rewrite take_while_all; [reflexivity|].
+    intros q Hq. unfold idxs in Hq. apply in_map_iff in Hq. destruct Hq as (e & <- & He).
+    apply Hkeep_pr. apply Hk. exact He. }
+  assert (Hev : ev_seq (do_trunc s n) =
+                if (length idxs =? length removed)%nat then (match pend s with [] => 0 | _ => ev_seq s end) else ev_seq s)
+    by reflexivity.
+  (* the directory's highest number and the eventual sequence stay in step *)
+  assert (Hpos : dmax (files (do_trunc s n)) = dmax (files s) /\ ev_seq (do_trunc s n) = ev_seq s
+                 \/ (pjobs s = [] /\ cur_open s = false /\ files (do_trunc s n) = [] /\ ev_seq (do_trunc s n) = 0)).
+  { destruct (cur_open s) eqn:Ho.
+    - left. destruct (c_open _ _ _ C Ho) as (Hseq & bs & Hbs & _).
+      assert (Hin : In (cur_seq s, bs) (files (do_trunc s n))).
+      { rewrite Hfiles. apply filter_In. split; [apply lookup_in; exact Hbs | exact Hcur]. }
+      split.
+      + apply dmax_in in Hin. cbn [fst] in Hin. lia.
+      + rewrite Hev. destruct (length idxs =? length removed)%nat eqn:El; [|reflexivity].
+        rewrite (Hall eq_refl) in Hin. inversion Hin.
+    - destruct (length idxs =? length removed)%nat eqn:El.
+      + pose proof (Hall eq_refl) as Hnil. destruct (pend s) eqn:Ep.
+        * right. split; [apply (pjobs_nil_of_pend s G C Ep)|]. split; [reflexivity|]. split; [exact Hnil|].
+          rewrite Hev. reflexivity.
+        * left. rewrite Hev. split; [|reflexivity].
+          destruct Hsafe as [Hs | [Hs | [Hs _]]]; [discriminate | exact Hs | discriminate].
+      + left. rewrite Hev. split; [|reflexivity].
+        destruct Hsafe as [Hs | [Hs | [_ Hs]]]; [discriminate | exact Hs |].
+        pose proof (Hall' Hs) as Hc. congruence. }
+  assert (Hpj : pjobs (do_trunc s n) = pjobs s) by reflexivity.
+  split.
+  - rewrite Hpj. constructor.
+    + destruct (c_pos _ _ _ C) as (opn' & Hrep).
+      change (cur_open (do_trunc s n)) with (cur_open s). change (cur_off (do_trunc s n)) with (cur_off s).
+      change (ev_off (do_trunc s n)) with (ev_off s).
+      destruct Hpos as [[Hd He] | (Hj & Ho & Hnil & He)].
+      * exists opn'. rewrite Hd, He. exact Hrep.
+      * rewrite Hj in *. cbn [replay] in *. inversion Hrep. exists (cur_open s). rewrite Hnil, He. reflexivity.
+    + exact (c_closed _ _ _ C).
+    + intros Ho. change (cur_open (do_trunc s n)) with (cur_open s) in Ho.
+      destruct (c_open _ _ _ C Ho) as (Hseq & bs & Hbs & Hlen).
+      change (cur_seq (do_trunc s n)) with (cur_seq s). change (wbuf (do_trunc s n)) with (wbuf s).
+      change (cur_off (do_trunc s n)) with (cur_off s).
+      destruct Hpos as [[Hd _] | (_ & Ho' & _)]; [|congruence].
+      split; [congruence|]. exists bs. split; [rewrite Hlk, Hcur; exact Hbs | exact Hlen].
+    + exact (c_jobs _ _ _ C).
+    + intros rf r HG.
+      rewrite (lookup_ref_filter_key (fun k => negb (has_file (fst k) (files s)) || has_file (fst k) (files (do_trunc s n)))) in HG.
+      destruct (negb (has_file (fst rf) (files s)) || has_file (fst rf) (files (do_trunc s n))) eqn:Ek; [|discriminate].
+      destruct (c_live _ _ _ C rf r HG) as [Hr0 [A | (b & Hfl & Hp & Hbel & Hloc)]]; split; try exact Hr0.
+      * left. exact A.
+      * right. unfold has_file in Ek. rewrite Hfl in Ek. cbn [negb orb] in Ek.
+        destruct (lookup (fst rf) (files (do_trunc s n))) as [b'|] eqn:Eb; [|discriminate].
+        assert (b' = b). { rewrite Hlk in Eb. destruct (keep (fst rf)); [congruence | discriminate]. }
+        subst b'. exists b. split; [first [exact Eb | reflexivity]|]. split; [exact Hp|].
+        change (cur_open (do_trunc s n)) with (cur_open s). change (cur_off (do_trunc s n)) with (cur_off s).
+        change (cur_seq (do_trunc s n)) with (cur_seq s). change (cbuf (do_trunc s n)) with (cbuf s).
+        change (wbuf (do_trunc s n)) with (wbuf s).
+        split; [|exact Hloc].
+        destruct Hpos as [[Hd _] | (_ & _ & Hnil & _)]; [rewrite Hd; exact Hbel|].
+        rewrite Hnil in Eb. discriminate.
+  - unfold wk_ok in *. change (wk (do_trunc s n)) with (wk s). destruct (wk s); try exact I.
+    change (cur_open (do_trunc s n)) with (cur_open s). change (cur_off (do_trunc s n)) with (cur_off s).
+    destruct W as (Ho & Hf & Hs). destruct Hpos as [[Hd _] | (_ & Ho' & _)]; [|congruence].
+    rewrite Hd. auto.
+Qed.
+
+Lemma step_inv s G x : Inv s G -> safe_step s x ->
+  Inv (fst (do_step crc32 bufsize qmax s x)) (ghost G s x (fst (do_step crc32 bufsize qmax s x)) (snd (do_step crc32 bufsize qmax s x))).
+Proof.
+  intros HI Hs. destruct x as [r | | n | | | | rf]; cbn [do_step].
+  - apply step_write; assumption.
+  - cbn [fst snd ghost]. destruct HI as [C W]. split.
+    + apply (core_ext s); try reflexivity. exact C.
+    + exact W.
+  - cbn [fst snd]. apply step_trunc; assumption.
+  - (* pop *) unfold do_pop. destruct HI as [C W].
+    destruct (wk s) eqn:Hwk; try (cbn [fst snd ghost]; split; assumption).
+    destruct (queue s) as [|j q] eqn:Hq; [cbn [fst snd ghost]; split; assumption|].
+    cbn [fst snd ghost]. split.
+    + unfold pjobs in *. rewrite Hwk, Hq in C. cbn [wk queue]. apply (core_ext s); try reflexivity. exact C.
+    + unfold wk_ok. cbn [wk]. exact I.
+  - (* proc *) destruct HI as [C W]. destruct (wk s) as [|j|j] eqn:Hwk.
+    + unfold do_proc. rewrite Hwk. cbn [fst snd ghost]. split; assumption.
+    + assert (Hpj : pjobs s = j :: queue s) by (unfold pjobs; rewrite Hwk; reflexivity).
+      rewrite Hpj in C. destruct (proc_ok s G j C Hwk) as (sF & sq & of & Hp & CF & WF & HwF & HqF).
+      rewrite Hp. cbn [fst snd ghost]. split; [|exact WF].
+      unfold pjobs. rewrite HwF, HqF. exact CF.
+    + unfold do_proc. rewrite Hwk. cbn [fst snd ghost]. split; assumption.
+  - (* done *) destruct (wk s) as [|j|j] eqn:Hwk.
+    + unfold do_done. rewrite Hwk. cbn [fst snd ghost]. exact HI.
+    + unfold do_done. rewrite Hwk. cbn [fst snd ghost]. exact HI.
+    + assert (Hg : ghost G s SDone (fst (do_done s)) (snd (do_done s)) = G) by reflexivity.
+      rewrite Hg. apply (step_done s G j); assumption.
+  - cbn [fst snd ghost]. exact HI.
+Qed.
+
+(* ---- traces *)
+Fixpoint grun (s : st) (G : list (ref * rec)) (tr : list step) : st * list (ref * rec) :=
+  match tr with
+  | [] => (s, G)
+  | x :: t => let so := do_step crc32 bufsize qmax s x in grun (fst so) (ghost G s x (fst so) (snd so)) t
+  end.
+
+Fixpoint safe (s : st) (tr : list step) : Prop :=
+  match tr with
+  | [] => True
+  | x :: t => safe_step s x /\ safe (fst (do_step crc32 bufsize qmax s x)) t
+  end.
+
+Lemma inv_init fs : Inv (init_state fs) [].
+Proof.
+  split; [|exact I]. unfold pjobs. cbn [init_state wk queue]. constructor; cbn.
+  - exists false. reflexivity.
+  - auto.
+  - discriminate.
+  - constructor.
+  - intros rf r H. discriminate.
+Qed.
+
+Lemma grun_inv : forall tr s G, Inv s G -> safe s tr -> Inv (fst (grun s G tr)) (snd (grun s G tr)).
+Proof.
+  induction tr as [|x t IH]; intros s G HI Hs; [exact HI|].
+  cbn [grun]. destruct Hs as [H1 H2]. apply IH; [apply step_inv; assumption | exact H2].
+Qed.
+
+(* read-your-write at every point of every admissible schedule *)
+Theorem read_your_write fs tr rf r : safe (init_state fs) tr ->
+  lookup_ref rf (snd (grun (init_state fs) [] tr)) = Some r ->
+  do_read crc32 (fst (grun (init_state fs) [] tr)) rf = RdOk (r_enc r) (r_data r).
+Proof.
+  intros Hs HG. destruct (grun_inv tr _ _ (inv_init fs) Hs) as [C _].
+  exact (read_live _ _ _ _ _ C HG).
 Qed.
 End RYW.
